@@ -3,7 +3,7 @@ import json,os,shutil,re,sys
 logp, atkp, suf = sys.argv[1], sys.argv[2], sys.argv[3]
 for P in sys.argv[4:]:
     log=open('%s_%s.log'%(logp,P)).read()
-    for k in (1,2,3):
+    for k in (1,2,3,4):
         m=re.search(r'== %s-%d\n(exit \d \w+)(.*?)(?=\n== |\Z)'%(P,k),log,re.S)
         if not m: print('no result',P,k); continue
         verdict=m.group(1); rest=m.group(2)
@@ -18,7 +18,7 @@ for P in sys.argv[4:]:
             src='%s_%s/out/%d/%s'%(atkp,P,k,f)
             if os.path.isfile(src) and os.path.getsize(src)<300000: shutil.copy(src,d)
         meta=json.load(open(d+'/meta.json'))
-        if suf: meta['wave']=2
+        meta['wave']={'':1,'b':2,'c':3,'d':4,'e':5,'f':6}.get(suf,9)
         meta['verif_result']='%s by ./check %s --tier quick (%d VIOLATION lines shown, %d of them no-failing-input-found; %s)'%(
             'DETECTED' if 'DETECTED' in verdict else 'MISSED',P,nv,nf,summ.group(0) if summ else '')
         meta['verif_cmd']='python3 lib/seedtest.py %s <scratch checkout at the base commit> seeded/%s/patch.diff'%(P,sid)
